@@ -7,7 +7,8 @@ Definition gt_frame (s s' : state) : Prop :=
   paused s' = paused s /\ conf_start s' = conf_start s /\ ws_start s' = ws_start s /\
   claim_start s' = claim_start s /\ fl_selected s' = fl_selected s /\ fl_additional s' = fl_additional s /\
   fl_filtered s' = fl_filtered s /\ last_ticket_id s' = last_ticket_id s /\ nr_winning s' = nr_winning s /\
-  op s' = op s /\ price s' = price s /\ claimable_payment s' = claimable_payment s.
+  op s' = op s /\ price s' = price s /\ claimable_payment s' = claimable_payment s /\
+  nft_payers s' = nft_payers s /\ nft_winners s' = nft_winners s /\ total_nfts s' = total_nfts s.
 
 Lemma gt_frame_refl s : gt_frame s s.
 Proof. unfold gt_frame. repeat split. Qed.
